@@ -26,7 +26,7 @@ PROPS = {
              assumptions=["per unit, requests come either from the unit itself or from one issuer, so accepted requests are totally ordered; a request overlapping a scheduling point may be honoured at that point or the next"]),
     "C14": P(160000, 3000000, expect_reach=["unit.tombstone_reused", "c14.translation_queries", "c14.units_created", "c14.handles_recycled", "c14.bulk_rounds"],
              assumptions=["unit handles are crafted integers that all hash to one bucket of the 256-entry table, recycled LIFO in half of the runs; translations are queried only for units that cannot move or be freed meanwhile (the caller's own unit, or a suspended ULT)"]),
-    "C15": P(160000, 3000000, expect_reach=["mempool.new_page", "mempool.bucket_from_global_lifo", "c15.mempool_allocs", "c15.mempool_cross_thread_frees", "c15.ext_frees_of_user_stack_ults", "c15.churn_units", "c15.churn_rounds_finished_on_another_stream", "c15.cancel_requests_to_queued_unnamed_units"],
+    "C15": P(160000, 3000000, expect_reach=["mempool.new_page", "mempool.bucket_from_global_lifo", "c15.mempool_allocs", "c15.mempool_cross_thread_frees", "c15.ext_frees_of_user_stack_ults", "c15.churn_units", "c15.churn_rounds_finished_on_another_stream", "c15.cancel_requests_to_queued_unnamed_units", "c15.attribute_objects_reused"],
              assumptions=["the white-box driver uses ABTI_mem_pool_* exactly as abti_mem.h does (one local pool per simulated thread, blocks may be freed to any local pool of the same global pool)",
                           "stack sizes 16 KiB..2 MiB (+50%) in the quick tier, up to 16 MiB in the thorough tier; with stack guards enabled the two lowest pages are not written"]),
     "C16": P(160000, 3000000, expect_reach=["key.chain_append", "key.table_creation_race_lost", "c16.remote_sets_while_owner_runs", "c16.destructor_calls", "c16.revives", "c16.keys_replaced_while_values_live", "c16.runs_with_high_key_ids"],
